@@ -12,10 +12,17 @@ fn main() {
     let src = match which.as_str() {
         "property" => "VERSION 5.8 ;\nMACRO m\n PROPERTY p 1 ;\n PIN a PROPERTY q 2 ; END a\nEND m\nEND LIBRARY\n",
         "site" => "VERSION 5.8 ;\nSITE core CLASS CORE ; SIZE 1 BY 2 ; END core\nEND LIBRARY\n",
+        "iterate_path" => "VERSION 5.8 ;\nMACRO m\n OBS\n  LAYER m1 ;\n  PATH ITERATE 0 0 1 0 DO 2 BY 1 STEP 1 1 ;\n  POLYGON ITERATE 0 0 1 0 1 1 DO 2 BY 1 STEP 3 3 ;\n END\nEND m\nEND LIBRARY\n",
         "nowire" => "VERSION 5.8 ;\nNOWIREEXTENSIONATPIN ON ;\nEND LIBRARY\n",
         _ => panic!("mode?"),
     };
-    let lib = parse(src).unwrap();
+    let lib = match parse(src) {
+        Ok(l) => l,
+        Err(e) => {
+            println!("{} RESULT read error {}", which, format!("{:?}", e).chars().take(160).collect::<String>());
+            return;
+        }
+    };
     if which == "property" {
         println!("read: macro props {:?}, pin props {:?}", lib.macros[0].properties, lib.macros[0].pins[0].properties);
     }
